@@ -161,6 +161,8 @@ _act = re.compile(r"^(\w+)(?:\((.*)\))?$")
 
 def parse_action(label):
     m = _act.match(label)
+    if m.group(1) == "RevertTo":            # the parameter is the model's non-deterministic choice, not an argument
+        return "Revert", []
     return m.group(1), re.findall(r'"([^"]*)"', m.group(2) or "")
 
 
@@ -195,41 +197,32 @@ def perform(wt, root, name, args):
 
 
 def pre_class(pre, flavour):
-    """Abstract class of the uncommitted changes in the spec pre-state (for calls without path arguments)."""
+    """Abstract class of the spec pre-state for calls without path arguments (commit, revert): the structural features
+    that the tree-wide operations are sensitive to.
+      similar  (git) an added file has the content of a basis file at another path - what rename / copy detection pairs
+      blocked  the path of a basis entry holds something of another kind on disk (file where a directory was, ...)
+      kept     a basis entry was unversioned but is still on disk"""
     cl = set()
-    for o, n, cc, ko, kn, eo, en in pre["changes"]:
-        if not o:
-            cl.add("added")
-        elif not n:
-            cl.add("removed")
-        else:
-            if o != n:
-                cl.add("renamed")
-            if ko != kn:
-                cl.add("kind")
-            elif cc:
-                cl.add("modified")
-            if eo != en:
-                cl.add("mode")
+    basis, disk, ver = pre["basis"], pre["disk"], pre["ver"]
+    bdirs = {p.rsplit("/", 1)[0] for p in basis if "/" in p} | {p for p, e in basis.items() if e[0] == "dir"}
     if flavour == "git":
-        # what git's rename / copy detection keys on: an added file with the content of another basis file
-        for p, i in pre["ver"].items():
-            if i != "no" and p not in pre["basis"] and pre["disk"].get(p, ("none",))[0] == "file" and any(
-                    q != p and b[0] == "file" and b[1] == pre["disk"][p][1] for q, b in pre["basis"].items()):
+        for p, i in ver.items():
+            if i != "no" and p not in basis and disk.get(p, ("none",))[0] == "file" and any(
+                    q != p and b[0] == "file" and b[1] == disk[p][1] for q, b in basis.items()):
                 cl.add("similar")
-    if flavour == "bzr" and any(i not in ("no", "new") and i != p and p.rsplit("/", 1)[0] != i.rsplit("/", 1)[0]
-                                for p, i in pre["ver"].items() if "/" in p or "/" in i):
-        cl.add("reparented")
-    unv = [p for p in pre["basis"] if pre["ver"].get(p) == "no" and p in pre["disk"]]
-    if unv:
-        cl.add("kept")                  # unversioned but still on disk
-    return "+".join(sorted(cl)) or "clean"
+    for p in set(basis) | bdirs:
+        want_kind = "dir" if p in bdirs else basis[p][0]
+        if p in disk and disk[p][0] != want_kind:
+            cl.add("blocked")
+    if any(ver.get(p) == "no" and p in disk for p in basis):
+        cl.add("kept")
+    return "+".join(sorted(cl)) or "plain"
 
 
 def signature(part, fmt, flavour, name, pre, want_last, exc):
     """part that differs : tree format : action[class of the pre-state] : the model's outcome (ok | rejected:<rule of
     WorkingTree.tla that forbids the call>) : what the tree did (ok | exception class)"""
-    cls = "[%s]" % pre_class(pre, flavour) if name in ("Revert", "Commit") else ""
+    cls = "[%s]" % pre_class(pre, flavour) if name in ("Revert", "Commit") and exc is None else ""
     return "%s:%s:%s%s:model-%s:tree-%s" % (part, fmt, name, cls, want_last, "ok" if exc is None else type(exc).__name__)
 
 
@@ -251,9 +244,13 @@ def want(gkey, nid):
     return _want_cache[k]
 
 
+def open_tree(root):
+    from breezy import controldir
+    return controldir.ControlDir.open(root).open_workingtree(recommend_upgrade=False)
+
+
 def replay_paths(sub, chunk):
     """chunk items: (format, graph key, namespace, init node, [labels])."""
-    from breezy.workingtree import WorkingTree
     for fmt, gkey, paths, start, labels in chunk:
         flavour = FORMATS[fmt]
         nodes, out = GRAPHS[gkey]
@@ -263,14 +260,17 @@ def replay_paths(sub, chunk):
         root = os.path.join(sub.workdir, "t")
         shutil.copytree(TEMPLATES[(fmt, init)], root, symlinks=True)
         try:
-            wt = WorkingTree.open(root)
+            wt = open_tree(root)
             calls = []
             ok = True
             for label in labels:
-                succs = out[cur].get(label)
+                name, args = parse_action(label)
+                if name == "Revert":
+                    succs = [n for l, ns in sorted(out[cur].items()) if l.startswith("RevertTo") for n in ns]
+                else:
+                    succs = out[cur].get(label)
                 if not succs:
                     break                # not enabled here (an earlier non-deterministic step went another way)
-                name, args = parse_action(label)
                 outcome, exc = "ok", None
                 try:
                     perform(wt, root, name, args)
@@ -282,13 +282,13 @@ def replay_paths(sub, chunk):
                 calls.append([name] + args + [outcome if exc is None else "rejected:" + type(exc).__name__])
                 rep = {"format": fmt, "init": init, "calls": calls}
                 live = project(wt, flavour)
-                fresh_wt = WorkingTree.open(root)
+                fresh_wt = open_tree(root)
                 fresh = project(fresh_wt, flavour)
                 if name == "Reopen":
                     wt = fresh_wt
                 cands = [n for n in succs if (want(gkey, n)["view"], want(gkey, n)["changes"]) == live]
                 if not cands:
-                    w = want(gkey, succs[0])
+                    w = want(gkey, sorted(succs, key=lambda n: want(gkey, n)["last"].split(":")[0] != outcome)[0])
                     part, got, exp = ("view", live[0], w["view"]) if live[0] != w["view"] else ("changes", live[1], w["changes"])
                     sub.violation(signature(part, fmt, flavour, name, pre, w["last"], exc),
                                   "%s tree after %s(%s) [%s]: %s differs from the model: %s" % (
@@ -305,6 +305,8 @@ def replay_paths(sub, chunk):
                     break
                 dk = disk_of(root, paths)
                 nxt = [n for n in cands if want(gkey, n)["disk"] == dk]
+                nxt.sort(key=lambda n: want(gkey, n)["last"].split(":")[0] != outcome)     # prefer the same outcome
+                cands.sort(key=lambda n: want(gkey, n)["last"].split(":")[0] != outcome)
                 w = want(gkey, (nxt or cands)[0])
                 if isinstance(exc, CRASHES):
                     sub.drift("%s %s(%s) raised %s (state as specified)" % (fmt, name, ", ".join(args), type(exc).__name__), rep)
